@@ -172,6 +172,21 @@ class Known:
     def classify(self, files, kind):
         return None
 
+    def slow_loop(self, files):
+        """a `.loop` whose count is not a literal expression evaluating to at most 4096: legal up to the budget of 65536 iterations
+        per pass (C06_loops_of_a_pass_bounded), but a debug build needs minutes for tens of thousands of iterations (one scope per
+        iteration, linear child lookup).  Such mutants are not run by the random streams; the budget itself is tested by sweep_loop."""
+        for t in files.values():
+            for m in re.finditer(r"\.loop\b([^{\n]*)", self.strip(t), flags=re.I):
+                r = self.model.call({"cmd": "stmt", "kind": "value", "prefix": True, "text": T(m.group(1).strip()), "env": {"syms": [], "pc": None}})
+                v = r.get("value")
+                try:
+                    if int(v) > 4096:
+                        return True
+                except (TypeError, ValueError):
+                    return True
+        return False
+
 
 # ----------------------------------------------------------------------------- generators
 MNEMS = ["lda", "ldx", "ldy", "sta", "stx", "sty", "adc", "and", "cmp", "inc", "dec", "jmp", "jsr", "bne", "beq", "bcc", "nop", "rts",
@@ -540,10 +555,14 @@ class Run:
                 reply, fails = self.case("sweep_loop", {"main.asm": prog})
                 self.expect("sweep_loop", {"main.asm": prog}, reply, fails, pred, "`.loop %d`" % v)
         for (a, b) in [(16, 16), (3, 70000), (2, 5)] + ([(257, 256)] if thorough else []):      # the last one exhausts the budget across loops (~10 s)
-            prog = ".loop %d { .loop %d { nop } }\n" % (a, b)
-            r1 = self.model.call({"cmd": "loop", "used": "0", "count": str(a)})
-            r2 = self.model.call({"cmd": "loop", "used": r1.get("v", "0"), "count": str(b)}) if r1["r"] == "ok" else r1
-            pred = "ok" if r2["r"] == "ok" else "diag:loop_budget"
+            prog = ".loop %d { .loop %d { } }\n" % (a, b)
+            # the outer loop reserves its count on entry, the inner loop reserves again in every outer iteration
+            r = self.model.call({"cmd": "loop", "used": "0", "count": str(a)})
+            k = 0
+            while r["r"] == "ok" and k < a:
+                r = self.model.call({"cmd": "loop", "used": r["v"], "count": str(b)})
+                k += 1
+            pred = "ok" if r["r"] == "ok" else "diag:loop_budget"
             reply, fails = self.case("sweep_loop", {"main.asm": prog})
             self.expect("sweep_loop", {"main.asm": prog}, reply, fails, pred, "nested loops %d x %d" % (a, b))
 
@@ -727,6 +746,9 @@ class Run:
         for i in range(n_mut):
             base = rng.choice(seeds + corpus)
             src = mutate(rng, base)
+            if self.known.slow_loop({"main.asm": src}):
+                self.bump("mutants_with_unbounded_loop_count_skipped")
+                continue
             self.case("mutated", {"main.asm": src}, sample=(i < 2))
         for i in range(n_rand):
             ln = rng.choice([1, 2, 5, 20, 80])
@@ -734,6 +756,8 @@ class Run:
                 src = "".join(rng.choice(MUT_ALPHABET) for _ in range(ln))
             else:
                 src = bytes(rng.randrange(256) for _ in range(ln)).decode("latin-1")
+            if self.known.slow_loop({"main.asm": src}):
+                continue
             self.case("random_text", {"main.asm": src})
 
     # ---- the real binary ------------------------------------------------------------------------------
@@ -757,7 +781,8 @@ class Run:
             elif r < 0.6:
                 data = gen_program(rng).encode() + bytes([rng.choice([0xff, 0xc0, 0x80, 0xfe])]) + b"\nnop\n"
             elif r < 0.8:
-                data = mutate(rng, gen_program(rng)).encode("utf-8", "surrogatepass")
+                m = mutate(rng, gen_program(rng))
+                data = (m if not self.known.slow_loop({"main.asm": m}) else gen_program(rng)).encode("utf-8", "surrogatepass")
             else:
                 data = gen_program(rng).encode()
             files = {"main.asm": data}
@@ -868,6 +893,7 @@ def run(chk):
         "stack depth and wall-clock are runtime behaviour: the model expresses them as recursion depth (import / macro graphs, nesting) and iteration / pass counts",
         "the evaluator model computes in Z; that evaluated values fit in 64 bits is a hypothesis of C06_stmt_align_total (evaluates_in_i64)",
         "no Known_* class is left: every panic / abort / hang on any generated input is a violation",
+        "random mutants whose `.loop` count is not a literal expression <= 4096 are not run (tens of thousands of iterations are legal but take minutes in a debug build); the loop budget itself is tested by the site sweep",
         "a hang verdict is only given by hook H1 (more than %d distinct passes) or by the request watchdog of %d s (>= 1000x the normal request time)" % (CAP_WATCH, int(REQ_TIMEOUT)),
     ]
     return chk.finish(extra_trusted=["translate/t_c06loop.py, translate/t_c06sites.py, translate/t_evaluator.py (recognise guarded / unguarded shapes)",
